@@ -1620,13 +1620,7 @@ def rule5(ctx, rep, fx):
                 if e.kind == 'loop_broken':
                     probs.append(f'the loop over the references can stop early ({e.data["how"]})')
                     continue
-                ok = _yields_ok(e.tags, expected, probs)
-                # yields inside an inner loop (for svref in algref2svref(ref): yield from ...)
-                for t in e.tags:
-                    if t[0] == 'loop-done':
-                        inner = [x for x in w.events if x.func is f and x.kind in ('iter_end', 'loop_broken') and x.data['lid'] == t[1]]
-                        if inner and all(x.kind == 'iter_end' and _yields_ok(x.tags, expected, probs) for x in inner):
-                            ok = True
+                ok = _covered(w, f, e, expected, probs, 0)
                 if ok:
                     covered += 1
                 else:
@@ -1648,6 +1642,21 @@ def rule5(ctx, rep, fx):
 
 def _vref(factory, impl, item, feat):
     return T_call(T_sym('dawgie.V_REF'), (), tuple(sorted({'factory': factory, 'impl': impl, 'item': item, 'feat': feat}.items())))
+
+
+def _covered(w, f, e, expected, probs, depth):
+    """the iteration that ended with e yielded the expansion itself, or completed an inner loop all of whose iterations did"""
+    new = e.data['new']
+    if _yields_ok(new, expected, probs):
+        return True
+    if depth > 3:
+        return False
+    for t in new:
+        if t[0] == 'loop-done':
+            inner = [x for x in w.events if x.func is f and x.kind in ('iter_end', 'loop_broken') and x.data['lid'] == t[1]]
+            if inner and all(x.kind == 'iter_end' and _covered(w, f, x, expected, probs, depth + 1) for x in inner):
+                return True
+    return False
 
 
 def _yields_ok(tags, expected, probs):
